@@ -1,10 +1,10 @@
 (* C05 - go-to-definition follows Lua's lexical scoping (DESIGN 5, binder family).
    Model: Model/Scope.v (scope tree of the traversal), Model/Resolve.v (FindMinScope / FindLocVar / IsCorrectPosition,
    text cut, globals).  Reference: Spec/LuaScope.v (environment-passing binder `bind_file`, class tags, `Laid`).
-   The unchanged code violates the full statement: classes B1-B5 and doc_end, each refuted here on parsed bytes. *)
+   The code violates the full statement: classes B1-B5, each refuted here on parsed bytes (doc_end: repaired). *)
 From Coq Require Import List NArith ZArith Bool.
 From LH Require Import Base.Bytes Model.Lexer Model.Ast Model.Scope Model.Globals Model.Resolve Spec.LuaScope
-  Proofs.ResolveRun Proofs.ResolveWitness.
+  Proofs.ResolveRun Proofs.ResolveWitness Proofs.ResolveFixes.
 Import ListNotations.
 Local Open Scope N_scope.
 
@@ -110,13 +110,20 @@ Theorem C05_for_step_order_refuted :
 Proof. vm_compute. repeat split. Qed.
 Print Assumptions C05_for_step_order_refuted.
 
-(* doc_end: cursor at the very end of a file without trailing newline: the handler answers nothing *)
-Theorem C05_doc_end_refuted :
-  run_define [(a_lua, src_doc_end)] a_lua 1 8 = ALocs [] /\
+(* doc_end, FIXED (fixes/C05-doc-end.diff): cursor at the very end of a file without trailing newline.  Before the repair
+   the handler answered nothing (`offset >= len(contents)`; model variant `no_fixes`); now it answers the declaration *)
+Theorem C05_doc_end_refuted_before_fix :
+  run_define_fx no_fixes [(a_lua, src_doc_end)] a_lua 1 8 = ALocs [] /\
   offset_of src_doc_end 1 8 0 = Some (N.of_nat (length src_doc_end)) /\
   option_map s_bind (spec_occ [(a_lua, src_doc_end)] a_lua 1 8) = Some (BLocal (mk_loc 1 6 1 7)).
 Proof. vm_compute. repeat split. Qed.
-Print Assumptions C05_doc_end_refuted.
+Print Assumptions C05_doc_end_refuted_before_fix.
+Theorem C05_doc_end_fixed :
+  run_define [(a_lua, src_doc_end)] a_lua 1 8 = ALocs [(a_lua, mk_loc 1 6 1 7)] /\
+  offset_of src_doc_end 1 8 0 = Some (N.of_nat (length src_doc_end)) /\
+  option_map s_bind (spec_occ [(a_lua, src_doc_end)] a_lua 1 8) = Some (BLocal (mk_loc 1 6 1 7)).
+Proof. vm_compute. repeat split. Qed.
+Print Assumptions C05_doc_end_fixed.
 
 (* ---- the guard of the partial theorem is satisfiable by a non-trivial program: every one of its occurrences is
    untagged, it is in the fragment and Laid, and the position resolver agrees with the reference binder on it *)
